@@ -32,9 +32,9 @@ MANIFEST = {
             "correspondence), numpy RandomState and sklearn make_blobs as 'a stream seeded with s yields the same draws'. "
             "The numerics between draws and k-space (blobs, sensitivity maps, FFT) are a parameter `render` of the model; "
             "their bit-reproducibility is checked on the implementation only. File names are assumed distinct. "
-            "Finding: SheppLoganDataset adds noise from the *global* numpy stream to all-zero outer slices; for "
-            "num_coils = 1 nothing seeds that stream, so such items differ between accesses (proved as "
-            "shepp_current_violates, holds for num_coils > 1: shepp_item_deterministic_partial).",
+            "Repaired finding (regression witnesses shepp_pinned_violates / shepp_pinned_partial): the pinned "
+            "SheppLoganDataset drew the noise of all-zero outer slices from the unseeded global numpy stream (num_coils = 1: "
+            "ds[i] twice differed).",
     "technique": "Lean 4 proof (list induction, omega, permutation counting) + AST translation bridge + differential "
                  "correspondence + property oracle on the real datasets",
 }
@@ -59,7 +59,7 @@ RULE = ("h5 pool: files with 1..9 slices, content value = 1000*file + slice; dat
         "non-trivial = at least 2 readable files and (a filter or context >= 1) for h5 cases, >= 2 members for concat cases, "
         "a multi-coil or zero-slice access for RNG cases, any oracle case with >= 2 volumes or a perturbed global RNG; "
         "distinct = distinct protocol line / oracle case key")
-PENDING_FINDINGS = ["shepplogan-zero-slice-noise-from-global-rng"]
+PENDING_FINDINGS: list[str] = []
 
 for _n in ("H5SliceData", "FakeMRIBlobsDataset", "SheppLoganDataset", "ConcatDataset", "FakeMRIData", "direct"):
     logging.getLogger(_n).setLevel(logging.ERROR)
@@ -243,6 +243,7 @@ class RngRecorder:
     def __enter__(self):
         self.log: list[tuple] = []
         self.private: list = []
+        self.private_randn: list = []
         self._orig = {k: getattr(np.random, k) for k in ("seed", "uniform", "randn", "RandomState")}
         rec = self
 
@@ -260,8 +261,13 @@ class RngRecorder:
 
         class RS(self._orig["RandomState"]):
             def __init__(self_, seed=None):  # noqa: N805
-                rec.private.append(None if seed is None else int(seed))
+                self_._verif_seed = None if seed is None else int(seed)
+                rec.private.append(self_._verif_seed)
                 super().__init__(seed)
+
+            def randn(self_, *shape):  # noqa: N805
+                rec.private_randn.append((self_._verif_seed, int(np.prod(shape))))
+                return super().randn(*shape)
 
         np.random.seed, np.random.uniform, np.random.randn, np.random.RandomState = seed, uniform, randn, RS
         self.s0 = np.random.get_state()
@@ -335,8 +341,13 @@ def impl_shepp(ds, i):
         np.random.seed(777 + i)
         with RngRecorder() as r:
             ds[i]
-        final = r.encode() if r.consistent() and not r.private else [9]
-        return ok(final, r.source_of("uniform"), r.source_of("randn"))
+        final = r.encode() if r.consistent() else [9]
+        if r.private_randn:      # noise from a private stream: (its seed, number of samples)
+            sd, k = r.private_randn[0]
+            noise = [9] if len(r.private_randn) > 1 or r.private != [sd] else ([0, 3, k] if sd is None else [1, sd, 3, k])
+        else:
+            noise = r.source_of("randn") if not r.private else [9]
+        return ok(final, r.source_of("uniform"), noise)
     return run
 
 
@@ -555,10 +566,39 @@ def oracle(ctx: Ctx, deep: bool = False):
         if [(r.start, r.stop) for r in vi] != [(k * nz, (k + 1) * nz) for k in range(kw["sample_size"])] or len(ds) != nz * kw["sample_size"]:
             yield Violation("fake-ranges-not-a-partition", "FakeMRIBlobsDataset.volume_indices do not partition 0..len-1", rep)
         yield from _repro(ds, twin, rng, rep, "fake", lambda i: False)
-    for _ in range(ctx.budget(10, 100) * (2 if deep else 1)):
-        coils = rng.choice([1, 1, 2, 4])
+    # the generator behind the dataset, called directly with the seeds the dataset may draw (0 included: a seed, not "no seed")
+    from direct.data.fake import FakeMRIData
+    from direct.data.sens import simulate_sensitivity_maps
+
+    for t in range(ctx.budget(18, 150)):
+        coils = rng.choice([1, 2, 3, 6])
+        shape = rng.choice([(6, 6), (5, 8), (3, 6, 6)])
+        seed = 0 if t % 3 == 0 else rng.choice([1, rng.randrange(10 ** 5)])
+        ctx.count(("fake-call", coils, shape, seed), True, bucket=f"oracle/fake-call/seed{'0' if seed == 0 else '+'}/coils{coils}")
+        outs = []
+        for _rep in range(2):
+            _perturb(rng)
+            outs.append(FakeMRIData(ndim=len(shape))(sample_size=1, num_coils=coils, spatial_shape=shape, name=["x"], seed=seed)[0]["kspace"])
+        if outs[0].tobytes() != outs[1].tobytes():
+            yield Violation("fake-call-seed0-differs" if seed == 0 else "fake-call-differs",
+                            "FakeMRIData()(…, seed=s) called twice with the same seed returns different k-space",
+                            {"op": "fake-call", "num_coils": coils, "spatial_shape": list(shape), "seed": seed})
+        if coils > 1:
+            maps = []
+            for _rep in range(2):
+                _perturb(rng)
+                maps.append(simulate_sensitivity_maps(shape[-2:], coils, seed=seed))
+            if maps[0].tobytes() != maps[1].tobytes():
+                yield Violation("sens-seed0-differs" if seed == 0 else "sens-differs",
+                                "simulate_sensitivity_maps(shape, coils, seed=s) called twice returns different maps",
+                                {"op": "sens", "num_coils": coils, "shape": list(shape[-2:]), "seed": seed})
+    for t in range(ctx.budget(10, 100) * (2 if deep else 1)):
+        coils = 1 if t == 0 else rng.choice([1, 1, 2, 4])
         shp = (rng.choice([6, 8]), rng.choice([6, 9]), rng.choice([3, 4, 6]))
         kw = dict(shape=shp, num_coils=coils, intensity=rng.choice(["PROTON", "T1", "T2"]), seed=rng.choice([0, 3, rng.randrange(10 ** 4)]))
+        if t == 0:      # fixed first configuration: single coil, all-zero outer slices
+            kw = dict(shape=(6, 6, 3), num_coils=1, intensity="PROTON", seed=0)
+            shp = kw["shape"]
         rep = {"op": "shepp", "kwargs": dict(kw, shape=list(shp))}
         ds, twin = SheppLoganDataset(**kw), SheppLoganDataset(**kw)
         ctx.count(("shepp", shp, coils, kw["intensity"], kw["seed"]), True, bucket=f"oracle/shepp/coils{coils}")
@@ -566,10 +606,10 @@ def oracle(ctx: Ctx, deep: bool = False):
         if [(r.start, r.stop) for r in vi] != [(0, len(ds))] or len(ds) != shp[2]:
             yield Violation("shepp-ranges-not-a-partition", "SheppLoganDataset.volume_indices is not range(0, len)", rep)
         zero = [bool(np.allclose(ds.sample_image(i), 0)) for i in range(len(ds))]
-        yield from _repro(ds, twin, rng, rep, "shepp", lambda i: coils == 1 and zero[i])
+        yield from _repro(ds, twin, rng, rep, "shepp", lambda i: zero[i])
 
 
-def _repro(ds, twin, rng, rep, name, pending):
+def _repro(ds, twin, rng, rep, name, zero_slice):
     n = len(ds)
     first = {}
     order = list(range(n)) + [rng.randrange(n) for _ in range(n)]
@@ -581,15 +621,15 @@ def _repro(ds, twin, rng, rep, name, pending):
         if it["slice_no"] != (ds.data[i][1] if name == "fake" else i):
             yield Violation(f"{name}-slice-no", "item reports a wrong slice_no", dict(rep, index=i))
         if i in first and not _same(first[i], it):
-            key = "shepplogan-zero-slice-noise-from-global-rng" if pending(i) else f"{name}-reload-differs"
+            key = f"{name}-zero-slice-reload-differs" if zero_slice(i) else f"{name}-reload-differs"
             yield Violation(key, f"{type(ds).__name__}[{i}] loaded twice returns different k-space "
                                  f"(max abs diff {float(np.abs(first[i]['kspace'] - it['kspace']).max()):.3g})",
-                            dict(rep, index=i, mode="reload"))
+                            dict(rep, mode="reload") if zero_slice(i) else dict(rep, index=i, mode="reload"))
         first.setdefault(i, it)
     for i in range(n):
         _perturb(rng)
         if not _same(first[i], twin[i]):
-            key = "shepplogan-zero-slice-noise-from-global-rng" if pending(i) else f"{name}-twin-differs"
+            key = f"{name}-zero-slice-twin-differs" if zero_slice(i) else f"{name}-twin-differs"
             yield Violation(key, f"two identically constructed {type(ds).__name__} objects (same seed) differ at index {i}",
                             dict(rep, index=i, mode="twin"))
 
@@ -626,6 +666,24 @@ def replay(rep: dict) -> bool:
             except exc:
                 pass
         return False
+    if op == "fake-call":
+        from direct.data.fake import FakeMRIData
+
+        outs = []
+        for _rep in range(2):
+            _perturb(rng)
+            outs.append(FakeMRIData(ndim=len(rep["spatial_shape"]))(sample_size=1, num_coils=rep["num_coils"],
+                                                                   spatial_shape=tuple(rep["spatial_shape"]), name=["x"],
+                                                                   seed=rep["seed"])[0]["kspace"])
+        return outs[0].tobytes() != outs[1].tobytes()
+    if op == "sens":
+        from direct.data.sens import simulate_sensitivity_maps
+
+        maps = []
+        for _rep in range(2):
+            _perturb(rng)
+            maps.append(simulate_sensitivity_maps(tuple(rep["shape"]), rep["num_coils"], seed=rep["seed"]))
+        return maps[0].tobytes() != maps[1].tobytes()
     if op in ("fake", "shepp"):
         kw = dict(rep["kwargs"])
         if op == "fake":
